@@ -20,7 +20,8 @@ import (
 type replaySpec struct {
 	Scenario string `json:"scenario"`
 	K        int    `json:"k"`
-	State    int    `json:"state"` // 0 = died between mutations; i>0 = torn variant i-1
+	State    int    `json:"state"`          // 0 = died between mutations; i>0 = torn variant i-1
+	Mode     string `json:"mode,omitempty"` // "fail" = fail-stop variant (mutation k and later return an error); default crash
 	Seed     uint64 `json:"seed"`
 	Mutation string `json:"mutation,omitempty"`
 	Torn     string `json:"torn_files,omitempty"`
@@ -147,8 +148,9 @@ func Main(args []string) {
 
 	// phase 2: every crash point
 	type caseRef struct {
-		sc Scenario
-		k  int
+		sc   Scenario
+		k    int
+		mode string
 	}
 	var cases []string
 	var crefs []caseRef
@@ -156,7 +158,17 @@ func Main(args []string) {
 		n := len(refs[sc.Name].Info.Log)
 		for k := 1; k <= n+1; k++ {
 			cases = append(cases, bs.newCase(sc, "crash", k, seed))
-			crefs = append(crefs, caseRef{sc, k})
+			crefs = append(crefs, caseRef{sc, k, "crash"})
+		}
+	}
+	// fail-stop variant: mutation k and every later one return an error, nobody dies (k = 1..n)
+	failPoints := 0
+	for _, sc := range scs {
+		n := len(refs[sc.Name].Info.Log)
+		for k := 1; k <= n; k++ {
+			cases = append(cases, bs.newCase(sc, "fail", k, seed))
+			crefs = append(crefs, caseRef{sc, k, "fail"})
+			failPoints++
 		}
 	}
 	results, err := subproc.Run([]string{"c06driver"}, cases, 0)
@@ -183,6 +195,8 @@ func Main(args []string) {
 	}
 	evaluations := 0
 	verdicts := map[string]int{}
+	verdictsFail := map[string]int{}
+	actSwallowed := 0 // fail-stop runs in which the action reported no error although a mutation failed
 	tornClasses := map[string]int{}
 	kinds := map[string]int{}
 	distinct := map[string]bool{}
@@ -190,11 +204,11 @@ func Main(args []string) {
 	var samples []any
 	harnessErrors := 0
 	for i, r := range results {
-		sc, k := crefs[i].sc, crefs[i].k
+		sc, k, mode := crefs[i].sc, crefs[i].k, crefs[i].mode
 		ref := refs[sc.Name]
 		ps := perScenario[sc.Name]
 		if ps == nil {
-			ps = map[string]any{"what": sc.What, "mutations": len(ref.Info.Log), "crash_points": 0, "torn_states": 0, "distinct_nontrivial": 0, "verdicts": map[string]int{}}
+			ps = map[string]any{"what": sc.What, "mutations": len(ref.Info.Log), "crash_points": 0, "torn_states": 0, "fail_stop_points": 0, "distinct_nontrivial": 0, "verdicts": map[string]int{}, "verdicts_fail_stop": map[string]int{}}
 			var seq []string
 			for _, m := range ref.Info.Log {
 				seq = append(seq, m.Kind)
@@ -203,6 +217,9 @@ func Main(args []string) {
 			perScenario[sc.Name] = ps
 		}
 		spec := replaySpec{Scenario: sc.Name, K: k, Seed: seed}
+		if mode == "fail" {
+			spec.Mode = "fail"
+		}
 		if r.Crashed {
 			evaluations++
 			record(finding{"c06.crash", sc.Name + ":process-dies-while-reopening-or-reading", fmt.Sprintf("the process that re-opens the repository after crash point %d died: %s", k, tail(r.Stderr))}, spec)
@@ -215,7 +232,14 @@ func Main(args []string) {
 			continue
 		}
 		mut := "end of the action"
-		if cr.Info.Crashed {
+		if mode == "fail" {
+			mut = fmt.Sprintf("%s(%s)", cr.Info.At.Kind, cr.Info.At.Arg)
+			if k > len(cr.Info.Log) || k > len(ref.Info.Log) || ref.Info.Log[k-1].Kind != cr.Info.At.Kind {
+				fmt.Fprintf(os.Stderr, "harness error: %s: fail-stop point %d was not reached or differs from the uninterrupted run\n", sc.Name, k)
+				harnessErrors++
+			}
+			ps["fail_stop_points"] = ps["fail_stop_points"].(int) + 1
+		} else if cr.Info.Crashed {
 			mut = fmt.Sprintf("%s(%s)", cr.Info.At.Kind, cr.Info.At.Arg)
 			kinds[cr.Info.At.Kind]++
 			if k <= len(ref.Info.Log) && ref.Info.Log[k-1].Kind != cr.Info.At.Kind {
@@ -226,7 +250,9 @@ func Main(args []string) {
 			fmt.Fprintf(os.Stderr, "harness error: %s: no crash at point %d of %d\n", sc.Name, k, len(ref.Info.Log))
 			harnessErrors++
 		}
-		ps["crash_points"] = ps["crash_points"].(int) + 1
+		if mode != "fail" {
+			ps["crash_points"] = ps["crash_points"].(int) + 1
+		}
 		for si, st := range cr.States {
 			evaluations++
 			if st.Torn != "" {
@@ -240,12 +266,24 @@ func Main(args []string) {
 				distinct[sc.Name+"/"+st.Digest] = true
 			}
 			fsList, verdict := judge(&sc, ref, st)
-			verdicts[verdict]++
-			ps["verdicts"].(map[string]int)[verdict]++
+			if st.Fail {
+				verdictsFail[verdict]++
+				ps["verdicts_fail_stop"].(map[string]int)[verdict]++
+				if st.ActErr == "" {
+					actSwallowed++
+				}
+			} else {
+				verdicts[verdict]++
+				ps["verdicts"].(map[string]int)[verdict]++
+			}
 			s := spec
 			s.State, s.Mutation, s.Torn = si, mut, st.Desc
 			for _, f := range fsList {
-				f.Detail = fmt.Sprintf("scenario %s (%s), process dies at mutation %d of %d = %s%s: %s", sc.Name, sc.What, k, len(ref.Info.Log), mut, tornText(st), f.Detail)
+				if st.Fail {
+					f.Detail = fmt.Sprintf("scenario %s (%s), mutation %d of %d = %s and every later one return an error (action reported: %q), nobody dies: %s", sc.Name, sc.What, k, len(ref.Info.Log), mut, st.ActErr, f.Detail)
+				} else {
+					f.Detail = fmt.Sprintf("scenario %s (%s), process dies at mutation %d of %d = %s%s: %s", sc.Name, sc.What, k, len(ref.Info.Log), mut, tornText(st), f.Detail)
+				}
 				record(f, s)
 			}
 			if len(samples) < 12 && (si > 0 || k%5 == 2) {
@@ -261,7 +299,7 @@ func Main(args []string) {
 		h := hits[key]
 		sc := findScenario(h.spec.Scenario)
 		for j := 0; j < 5; j++ {
-			reCases = append(reCases, bs.newCase(*sc, "crash", h.spec.K, seed))
+			reCases = append(reCases, bs.newCase(*sc, modeOf(h.spec), h.spec.K, seed))
 		}
 	}
 	if len(reCases) > 0 {
@@ -297,19 +335,22 @@ func Main(args []string) {
 		table = append(table, ps)
 	}
 	cov := map[string]any{
-		"evaluations":           evaluations,
-		"distinct_nontrivial":   len(distinct),
-		"rule":                  "every scenario × every crash point k = 1..n+1 of its mutation log (process really dies before mutation k) × for a clock write every on-disk state derived from the file operations of the real lamport.PersistedClock; each evaluation = real re-open with clock loader + read-all + repeat of the action. A crash state is non-trivial when its on-disk state (set of loose git objects, presence of fetched packs, every ref with its target, existence and length of each clock file, other local-storage files, config) differs from both the state before the action and the state after the uninterrupted action; distinct = distinct by (scenario, that digest)",
-		"exhaustive":            harnessErrors == 0,
-		"scenarios":             len(scs),
-		"crash_points":          len(cases),
-		"torn_states_by_class":  tornClasses,
-		"crash_points_by_call":  kinds,
-		"verdicts":              verdicts,
-		"distinct_finding_sigs": len(order),
-		"per_scenario":          table,
-		"findings":              findingList, // every distinct oracle|sig with its first (smallest) crash state; known ones included
-		"samples":               samples,
+		"evaluations":         evaluations,
+		"distinct_nontrivial": len(distinct),
+		"rule":                "every scenario × every crash point k = 1..n+1 of its mutation log (process really dies before mutation k) × for a clock write every on-disk state derived from the file operations of the real lamport.PersistedClock; plus the fail-stop variant: every scenario × every k = 1..n where mutation k and all later ones return an error and the process ends normally; each evaluation = real re-open with clock loader + read-all + repeat of the action. A crash state is non-trivial when its on-disk state (set of loose git objects, presence of fetched packs, every ref with its target, existence and length of each clock file, other local-storage files, config) differs from both the state before the action and the state after the uninterrupted action; distinct = distinct by (scenario, that digest)",
+		"exhaustive":          harnessErrors == 0,
+		"scenarios":           len(scs),
+		"crash_points":        len(cases) - failPoints,
+		"fail_stop_points":    failPoints,
+		"verdicts_fail_stop":  verdictsFail,
+		"fail_stop_runs_where_the_action_reported_no_error": actSwallowed,
+		"torn_states_by_class":                              tornClasses,
+		"crash_points_by_call":                              kinds,
+		"verdicts":                                          verdicts,
+		"distinct_finding_sigs":                             len(order),
+		"per_scenario":                                      table,
+		"findings":                                          findingList, // every distinct oracle|sig with its first (smallest) crash state; known ones included
+		"samples":                                           samples,
 	}
 	ev := evidence.Evidence{PropertyID: "C06", Tier: tier, Seed: int(seed), Level: "fault_enumeration", Coverage: cov,
 		Assumptions: []string{
@@ -323,13 +364,21 @@ func Main(args []string) {
 	if err := ev.Write(); err != nil {
 		harnessFail("cannot write evidence: %v", err)
 	}
+	fmt.Printf("C06: fail_stop_points=%d verdicts_fail_stop=%v\n", failPoints, verdictsFail)
 	fmt.Printf("C06: scenarios=%d crash_points=%d evaluations=%d distinct_nontrivial=%d verdicts=%v torn=%v violations=%d wall=%.1fs\n",
-		len(scs), len(cases), evaluations, len(distinct), verdicts, tornClasses, rep.Viol, time.Since(start).Seconds())
+		len(scs), len(cases)-failPoints, evaluations, len(distinct), verdicts, tornClasses, rep.Viol, time.Since(start).Seconds())
 	os.RemoveAll(scratch)
 	if harnessErrors > 0 && rep.Viol == 0 {
 		os.Exit(2)
 	}
 	rep.Exit()
+}
+
+func modeOf(s replaySpec) string {
+	if s.Mode == "fail" {
+		return "fail"
+	}
+	return "crash"
 }
 
 func tornText(st StateResult) string {
@@ -383,7 +432,7 @@ func Replay(scratch, path string) int {
 		fmt.Fprintln(os.Stderr, "harness error:", err)
 		return 2
 	}
-	res, err := subproc.Run([]string{"c06driver"}, []string{bs.newCase(*sc, "log", 0, f.Replay.Seed), bs.newCase(*sc, "crash", f.Replay.K, f.Replay.Seed)}, 2)
+	res, err := subproc.Run([]string{"c06driver"}, []string{bs.newCase(*sc, "log", 0, f.Replay.Seed), bs.newCase(*sc, modeOf(f.Replay), f.Replay.K, f.Replay.Seed)}, 2)
 	if err != nil {
 		fmt.Fprintln(os.Stderr, "harness error:", err)
 		return 2
@@ -414,6 +463,9 @@ func Replay(scratch, path string) int {
 	for si, st := range cr.States {
 		if si != f.Replay.State {
 			continue
+		}
+		if st.Fail {
+			fmt.Printf("fail-stop variant: mutation %d and every later one returned an error; the action reported %q\n", f.Replay.K, st.ActErr)
 		}
 		fmt.Printf("process died before mutation %d (%s %s)%s\n  clocks after re-open %v, stored maxima %v, open error %q\n", f.Replay.K, cr.Info.At.Kind, cr.Info.At.Arg, tornText(st), st.Obs.Clocks, st.Obs.Stored, st.Obs.OpenErr)
 		fsList, verdict := judge(sc, ref, st)
